@@ -127,6 +127,48 @@ func runC08(e *Engine, tier Tier) *PropRun {
 	})
 	e.prepareExempt("C08", fns, opts)
 	rs = append(rs, e.verifyAll(fns, opts, nil)...)
+	// 4. assign-before-read at the entry points: a field of the receiver that is read (by the entry point, by a helper
+	// executed in place, or possibly by a callee under contract - transitive read sets) must have been assigned by this
+	// very call, unless it is configuration or a field the contracts above prove restored
+	parserAllow := map[string]string{
+		"strict":  "configuration (set by options, kept across calls by design)",
+		"dialect": "configuration (set by options, kept across calls by design)",
+		"depth":   "restored by every call (default contract: depth == old(depth)), so it is the constructor's value",
+		"ctx#tag": "nil between calls (ParseContext contract: ctx restored on every exit)",
+		"ctx#val": "nil between calls (ParseContext contract: ctx restored on every exit)",
+	}
+	tokAllow := map[string]string{
+		"keywords":       "configuration (keyword table of the tokenizer's dialect)",
+		"dialect":        "configuration",
+		"lineStarts#ptr": "Reset reuses the backing array of the line table; its elements are rewritten before they are read",
+		"lineStarts#cap": "Reset reuses the backing array of the line table; its elements are rewritten before they are read",
+		"lineStarts#len": "Reset truncates the line table before refilling it",
+	}
+	for _, grp := range []struct {
+		keys  []string
+		allow map[string]string
+	}{
+		{[]string{"sql/parser.(*Parser).Parse", "sql/parser.(*Parser).ParseContext", "sql/parser.(*Parser).ParseWithPositions", "sql/parser.(*Parser).parseWithRecovery"}, parserAllow},
+		{[]string{"sql/tokenizer.(*Tokenizer).Tokenize", "sql/tokenizer.(*Tokenizer).TokenizeContext"}, tokAllow},
+	} {
+		var efs []*ssa.Function
+		for _, k := range grp.keys {
+			if f := e.Fn(k); f != nil {
+				efs = append(efs, f)
+			}
+		}
+		ropts := &VCOpts{InlineDepth: 2, NoContents: true, TrackReads: grp.allow, CheckTags: map[string]bool{"-": true}}
+		for _, r := range e.verifyAll(efs, ropts, nil) {
+			kept := r.Obls[:0:0]
+			for _, o := range r.Obls {
+				if o.Kind == "reads" {
+					kept = append(kept, o)
+				}
+			}
+			r.Obls = kept
+			rs = append(rs, r)
+		}
+	}
 	return &PropRun{
 		Results: rs, FUC: fucList(rs),
 		Explanation: "Three families of obligations. (1) Schema fresh(T.f), instantiated from go/types for every field of parser.Parser and tokenizer.Tokenizer: at the pool.Put call of PutParser/PutTokenizer every field equals its value in a newly constructed instance (zero unless the constructor says otherwise), so a field added later gets an obligation automatically. (2) Per-call state is assigned before it is read: the entry points' loop invariants state that tokens/positions/cursor hold this call's values when the statement loop starts (positions == nil for position-less parses). (3) Restoration on every path: every (*Parser) method proves depth == old(depth) (deferred decrement modelled), cursor monotone, tokens/positions/strict/dialect untouched; entry points prove ctx cleared, depth and configuration unchanged on every exit. Loop invariants are inferred Houdini-style from the contract clauses and then checked like written ones.",
